@@ -2,6 +2,7 @@ import Thanos.Common.Parse
 import Thanos.Model.CacheKeys
 import Thanos.Model.PostingsCodec
 import Thanos.Model.CachingBucket
+import Thanos.Model.CachingBucketOps
 import Thanos.Model.IndexHeader
 import Thanos.Model.LazyReader
 /-
@@ -256,7 +257,8 @@ section C14
 open Thanos.CachingBucket
 
 structure CBState where
-  attrs : Bool                    -- attributes entry stored
+  oc : OpsCache                   -- entries for the object "obj" (attrs is shared with GetRange)
+  mc : OpsCache                   -- entries for the absent object "nope"
   subs : List (Nat × Nat)         -- stored subrange keys
 
 def patAt (pat : List Char) (i : Nat) : Char := pat.getD (i % pat.length) '0'
@@ -272,8 +274,8 @@ def cbRead (guard : Bool) (obj : Bytes) (S maxSub p : Nat) (st : CBState) (off l
     (attrPat subPat : List Char) : String × CBState :=
   -- cachedAttributes
   let c := patAt attrPat 0
-  let attrHit := st.attrs && c == '0'
-  let st := { st with attrs := true }    -- either still stored, or fetched and stored again
+  let attrHit := st.oc.attrs.isSome && c == '0'
+  let st := { st with oc := { st.oc with attrs := some obj.length } }   -- still stored, or fetched and stored again
   let size := obj.length
   -- which subrange keys the cache returns, in the order the keys are requested
   let endPos := min (off + len) size
@@ -295,22 +297,88 @@ def cbRead (guard : Bool) (obj : Bytes) (S maxSub p : Nat) (st : CBState) (off l
   let subs := subs ++ stored.filter fun k => !subs.contains k
   (s!"{out}/{if attrHit then "-" else "A"}/{showPairs "+" r.reads}/{showPairs "-" stored}", { st with subs := subs })
 
-def parseRead? (s : String) : Option (Nat × Nat × List Char × List Char) :=
-  if !s.startsWith "r" then none else
-  match splitChar ',' (s.drop 1).toString with
-  | [o, l, ap, sp] => do
-    let o ← parseNat? o
-    let l ← parseNat? l
-    if ap.isEmpty || sp.isEmpty then none else
-    pure (o, l, ap.toList, sp.toList)
+inductive MixOp where
+  | read (off len : Nat) (ap sp : List Char)
+  | get (present : Bool) (mode : ReadMode) (pat : List Char)
+  | exist (present : Bool) (pat : List Char)
+  | attrs (present : Bool) (pat : List Char)
+  | iter (pat : List Char)
+
+def parsePat? (s : String) : Option (List Char) :=
+  if s.isEmpty || !(s.toList.all fun c => c == '0' || c == '1' || c == '2') then none else some s.toList
+
+def parseMode? (s : String) : Option ReadMode :=
+  if s = "f" then some .full else if s = "x" then some .exact
+  else if s.startsWith "h" then (parseNat? (s.drop 1).toString).map .partialRead else none
+
+def parseMixOp? (s : String) : Option MixOp :=
+  let rest := (s.drop 1).toString
+  match s.toList.head? with
+  | some 'r' =>
+    match splitChar ',' rest with
+    | [o, l, ap, sp] => do
+      let o ← parseNat? o; let l ← parseNat? l
+      let ap ← parsePat? ap; let sp ← parsePat? sp
+      pure (.read o l ap sp)
+    | _ => none
+  | some 'g' =>
+    match splitChar ',' rest with
+    | [m, pat] => do
+      let m ← parseMode? m; let pat ← parsePat? pat
+      pure (.get true m pat)
+    | _ => none
+  | some 'G' => (parsePat? rest).map (.get false .full)
+  | some 'e' => (parsePat? rest).map (.exist true)
+  | some 'E' => (parsePat? rest).map (.exist false)
+  | some 'a' => (parsePat? rest).map (.attrs true)
+  | some 'A' => (parsePat? rest).map (.attrs false)
+  | some 'i' => (parsePat? rest).map .iter
   | _ => none
 
-def cbHist (guard : Bool) (obj : Bytes) (S maxSub p : Nat) :
-    List (Nat × Nat × List Char × List Char) → CBState → List String
+def showAns : Ans → String
+  | .data b => hexOfStr b
+  | .notFound => "notfound"
+  | .bool b => if b then "true" else "false"
+  | .size n => s!"size:{n}"
+  | .names l => "names:" ++ ",".intercalate (l.map fun k => if k = 0 then "obj" else "zdir/")
+
+/-- what a Fetch pattern does to one entry: is it seen, does it survive -/
+def seen (pat : List Char) (i : Nat) : Bool := patAt pat i == '0'
+def evict (pat : List Char) (i : Nat) : Bool := patAt pat i == '2'
+
+def showOp (r : OpRes) : String := s!"{showAns r.ans}/{if r.calls.isEmpty then "-" else "+".intercalate r.calls}"
+
+def mixStep (obj : Bytes) (S maxSub p maxGet : Nat) (st : CBState) : MixOp → String × CBState
+  | .read o l ap sp =>
+    -- an evicted attributes entry is forgotten before it is (fetched and) stored again
+    cbRead true obj S maxSub p st o l ap sp
+  | .get present mode pat =>
+    -- Fetch([content, exists]): an evicted entry is forgotten at fetch time
+    let c := if present then st.oc else st.mc
+    let c := { c with content := if evict pat 0 then none else c.content,
+                      exist := if evict pat 1 then none else c.exist }
+    let r := opGet (if present then some obj else none) maxGet mode (seen pat 0) (seen pat 1) c
+    (showOp r, if present then { st with oc := r.cache } else { st with mc := r.cache })
+  | .exist present pat =>
+    let c := if present then st.oc else st.mc
+    let c := if evict pat 0 then { c with exist := none } else c
+    let r := opExists (if present then some obj else none) (seen pat 0) c
+    (showOp r, if present then { st with oc := r.cache } else { st with mc := r.cache })
+  | .attrs present pat =>
+    let c := if present then st.oc else st.mc
+    let c := if evict pat 0 then { c with attrs := none } else c
+    let r := opAttributes (if present then some obj else none) (seen pat 0) c
+    (showOp r, if present then { st with oc := r.cache } else { st with mc := r.cache })
+  | .iter pat =>
+    let c := if evict pat 0 then { st.oc with iter := none } else st.oc
+    let r := opIter [0, 1] (seen pat 0) c
+    (showOp r, { st with oc := r.cache })
+
+def mixRun (obj : Bytes) (S maxSub p maxGet : Nat) : List MixOp → CBState → List String
   | [], _ => []
-  | (o, l, ap, sp) :: ops, st =>
-    let (a, st') := cbRead guard obj S maxSub p st o l ap sp
-    a :: cbHist guard obj S maxSub p ops st'
+  | op :: ops, st =>
+    let (a, st') := mixStep obj S maxSub p maxGet st op
+    a :: mixRun obj S maxSub p maxGet ops st'
 
 def handleC14 : List String → Option String
   | ["cb.hist", obj, S, maxSub, p, ops] => do
@@ -318,9 +386,18 @@ def handleC14 : List String → Option String
     let S ← parseNat? S
     let maxSub ← parseNat? maxSub
     let p ← parseNat? p
-    let ops ← (splitChar ';' ops).mapM parseRead?
+    let ops ← (splitChar ';' ops).mapM parseMixOp?
     if S = 0 ∨ p = 0 then none else
-    pure (";".intercalate (cbHist true obj S maxSub p ops ⟨false, []⟩))
+    pure (";".intercalate (mixRun obj S maxSub p 0 ops ⟨.empty, .empty, []⟩))
+  | ["cb.mix", obj, S, maxSub, p, maxGet, ops] => do
+    let obj ← strOfHex? obj
+    let S ← parseNat? S
+    let maxSub ← parseNat? maxSub
+    let p ← parseNat? p
+    let maxGet ← parseNat? maxGet
+    let ops ← (splitChar ';' ops).mapM parseMixOp?
+    if S = 0 ∨ p = 0 then none else
+    pure (";".intercalate (mixRun obj S maxSub p maxGet ops ⟨.empty, .empty, []⟩))
   | _ => none
 end C14
 
